@@ -6,7 +6,9 @@ uninitialised rewards and adds floor(dt * emissions / liquidity) (overflow -> 0)
 wrapping add; collecting pays min(owed, vault balance) from the vault recorded for that
 reward index and stores the remainder; changing the emission rate requires a day of
 emissions in that vault, settles accrual at the old rate first and bounds the index;
-the wrap discipline of reward growth values.
+the wrap discipline of reward growth values; reward growth inside a range per reward
+index (both implementations: the three-way selection per bound, one index everywhere,
+uninitialised rewards skipped); tick crossings in a swap use the growth accrued up to it.
 Not decided: accrued amounts versus the exact pro-rata share."""
 from analysis import cfg, atoms as A, preach, writes, accounts as ACC
 from analysis.ir import callee_path, AnchorMissing
@@ -238,7 +240,8 @@ def R5_inside_and_crossing(run):
         st = None
         for bi, bb in enumerate(fn.blocks):
             for si, x in enumerate(bb["s"]):
-                if x["k"] == "=" and "p" in x["p"] and any(isinstance(e, dict) and "ix" in e for e in x["p"]["p"]) and fn.locals[x["p"]["l"]].get("n") == "reward_growths_inside":
+                # the result array: an indexed store into a plain local (the only one in these functions)
+                if x["k"] == "=" and "p" in x["p"] and any(isinstance(e, dict) and "ix" in e for e in x["p"]["p"]) and x["p"]["p"][0] != "*" and x["p"]["l"] > fn.argc:
                     st = (bi, si, x)
         if st is None:
             run.missing("R5", "store@" + short, "no store to reward_growths_inside[i] in " + path, loc=fn.loc())
